@@ -54,7 +54,9 @@ theorem cmp_rejects (e : TyEnv) (f : Form) (hf : f ∈ [.eq, .lt, .pcmp, .ordmax
 
 /-- a unit of another quantity is rejected by `new` and `get` -/
 theorem unit_iff (e : TyEnv) (A B : QTy) (m : Bool) :
-    (accepts e .newf A B m = true ↔ m = true) ∧ (accepts e .getf A B m = true ↔ m = true) := by
+    (accepts e .newf A B m = true ↔ m = true) ∧ (accepts e .getf A B m = true ↔ m = true) ∧
+    (accepts e .fmtargs A B m = true ↔ m = true) ∧ (accepts e .fmtwith A B m = true ↔ m = true) ∧
+    (accepts e .floorf A B m = true ↔ m = true) := by
   simp [accepts]
 
 /-- a root is accepted iff every exponent is divisible (and the kind allows division) -/
